@@ -361,7 +361,8 @@ def dm_self(m, cls='CPUDomainManager', **attrs):
         base[a + 'translate'] = z3.Real(a + 'translate')
         base['periodic_in_' + a] = z3.Bool('periodic_in_' + a)
         base['mirror_in_' + a] = z3.Bool('mirror_in_' + a)
-    base.update(n_layers=z3.Real('n_layers'), cell_size=z3.Real('cell_size'))
+    base.update(n_layers=z3.Real('n_layers'), cell_size=z3.Real('cell_size'),
+                radius_scale=z3.Real('radius_scale'))
     base.update(attrs)
     o.attrs = base
     return o
@@ -452,6 +453,51 @@ if bad is None:
     got = sorted((float(a_), float(b_)) for a_, b_, t_ in zip(pa.get('x', only_real_particles=False), pa.get('y', only_real_particles=False), tg) if t_ != 0)
     if got != sorted(want):
         bad = dict(case='periodic x+y, particles exactly on the layer boundary', missing=sorted(set(want) - set(got))[:6], extra=sorted(set(got) - set(want))[:6])
+import itertools
+if bad is None:
+    # every combination of periodic axes in 3D: faces, edges and corners
+    P = [(0.1, 0.1, 0.1), (0.9, 0.1, 0.9), (0.5, 0.9, 0.1), (0.5, 0.5, 0.5), (0.1, 0.9, 0.5), (0.9, 0.9, 0.9)]
+    L = 0.25
+    for fl in itertools.product((False, True), repeat=3):
+        if not any(fl): continue
+        pa = get_particle_array(name='a', x=[p[0] for p in P], y=[p[1] for p in P], z=[p[2] for p in P], h=0.0625)
+        dm = DomainManager(xmin=0, xmax=1, ymin=0, ymax=1, zmin=0, zmax=1, periodic_in_x=fl[0], periodic_in_y=fl[1], periodic_in_z=fl[2], n_layers=2)
+        nn = LinkedListNNPS(dim=3, particles=[pa], domain=dm, radius_scale=2.0)
+        want = []
+        for p in P:
+            for sh in itertools.product((-1, 0, 1), repeat=3):
+                if not any(sh): continue
+                ok = True
+                for a in range(3):
+                    if sh[a] == 0: continue
+                    if not fl[a]: ok = False
+                    elif sh[a] == 1 and not (p[a] <= L): ok = False
+                    elif sh[a] == -1 and not (1.0 - p[a] <= L): ok = False
+                if ok: want.append(tuple(round(p[a] + sh[a], 9) for a in range(3)))
+        tg = pa.get('tag', only_real_particles=False)
+        G = [pa.get(k, only_real_particles=False) for k in 'xyz']
+        got = sorted(tuple(round(float(G[a][i]), 9) for a in range(3)) for i in range(len(tg)) if tg[i] != 0)
+        if got != sorted(want):
+            bad = dict(case='3D box, periodic flags %s' % (fl,), ghosts=len(got), expected=len(want), missing=sorted(set(want) - set(got))[:6], extra=sorted(set(got) - set(want))[:6]); break
+if bad is None:
+    # two arrays with different smoothing lengths: the ghost layer of EVERY
+    # array is n_layers * radius_scale * (largest h over all arrays)
+    xc = np.arange(0.0625, 1, 0.125); xf = np.arange(0.015625, 1, 0.03125)
+    for order in (0, 1):
+        coarse = get_particle_array(name='coarse', x=xc, h=0.0625)
+        fine = get_particle_array(name='fine', x=xf, h=0.015625)
+        arrs = [coarse, fine] if order == 0 else [fine, coarse]
+        dm = DomainManager(xmin=0, xmax=1, periodic_in_x=True, n_layers=2)
+        nn = LinkedListNNPS(dim=1, particles=arrs, domain=dm, radius_scale=2.0)
+        L = 2 * 2.0 * 0.0625
+        for pa_, xs in ((coarse, xc), (fine, xf)):
+            want = sorted([float(v) + 1.0 for v in xs if v - 0.0 <= L] + [float(v) - 1.0 for v in xs if 1.0 - v <= L])
+            tg = pa_.get('tag', only_real_particles=False)
+            got = sorted(float(v) for v, t in zip(pa_.get('x', only_real_particles=False), tg) if t != 0)
+            if got != want:
+                bad = dict(case='periodic x, coarse (h=0.0625) and fine (h=0.015625) arrays, order %d' % order, array=pa_.name,
+                           ghosts=len(got), expected=len(want), missing=sorted(set(want) - set(got))[:6]); break
+        if bad: break
 print(json.dumps(dict(bad=bad)))
 '''
 
@@ -744,11 +790,27 @@ class ColStub(object):
     def vc_clone(self, memo, clone):
         return self
 
+    def length_at(self, st):
+        """the column of a live array grows with it: the length read at a
+        program point is that of the array then -- 0 for a ghost buffer
+        nothing has been copied into yet on this path (buffers start empty:
+        obligation buffers_start_empty), one symbol per number of copies
+        made so far otherwise"""
+        if not self.arr.startswith('ghost'):
+            return self.length
+        k = sum(1 for t in st.trace if t[0] == 'extract' and
+                t[4] == self.arr)
+        if k == 0:
+            return z3.IntVal(0)
+        v = z3.Int('len_%s_after_%d_copies' % (self.arr, k))
+        st.pc.append(v >= 0)
+        return v
+
     def vc_getattr(self, name, ex, st, node):
         if name == 'data':
             return self.data
         if name == 'length':
-            return self.length
+            return self.length_at(st)
         raise VCError('column stub .%s' % name)
 
 
@@ -804,9 +866,13 @@ def task_compose(ctx, repo, m, mode):
     if mode == 'periodic':
         # the very first update: no ghost buffers yet
         _compose(ctx, repo, m, mode, False)
+    # the composition above is for all three axes switched on; for EVERY
+    # combination of the axis flags each scan still covers the whole column
+    # it reads (the edge images of a y-z periodic box come from the y images)
+    _compose(ctx, repo, m, mode, True, any_flags=True)
 
 
-def _compose(ctx, repo, m, mode, have_ghosts):
+def _compose(ctx, repo, m, mode, have_ghosts, any_flags=False):
     cls = 'CPUDomainManager'
     mname = '_create_ghosts_' + mode
     fn = m.methods(cls)[mname]
@@ -827,15 +893,20 @@ def _compose(ctx, repo, m, mode, have_ghosts):
         pa = ArrStub('pa%d' % i)
         cols = {a: carr('pa%d_%s' % (i, a), length=z3.Int('np%d' % i))
                 for a in AX}
-        paw = SymObject(None, dict(pa=pa, x=cols['x'], y=cols['y'],
-                                   z=cols['z']), 'paw%d' % i)
+        # (h is not read by the unchanged code: the layer thickness is the
+        # manager's cell_size, the same for every array)
+        paw = SymObject(None, dict(
+            pa=pa, x=cols['x'], y=cols['y'], z=cols['z'],
+            h=SymObject(None, dict(maximum=z3.Real('hmax%d' % i),
+                                   minimum=z3.Real('hmin%d' % i)), 'h')),
+            'paw%d' % i)
         paws.append(paw)
         pas.append(pa)
         ghosts.append(ArrStub('ghost%d' % i))
     flags = {}
     for a in AX:
-        flags[('periodic_in_' if mode == 'periodic' else 'mirror_in_') +
-              a] = True
+        nm_ = ('periodic_in_' if mode == 'periodic' else 'mirror_in_') + a
+        flags[nm_] = z3.Bool('flag_' + nm_) if any_flags else True
     obj = dm_self(m, cls, pa_wrappers=paws, narrays=narrays,
                   copy_props=[None, None],
                   ghosts=list(ghosts) if have_ghosts else [], **flags)
@@ -900,14 +971,17 @@ def _compose(ctx, repo, m, mode, have_ghosts):
         outs = ex.exec_function(fn, dict(self=obj), State(
             pc=[A['cell_size'] > 0, A['n_layers'] >= 1]))
     except VCError as e:
-        ctx.outside(mode + '.compose', str(e))
+        ctx.outside(mode + ('' if have_ghosts else '.first_update') +
+                    ('.anyflags' if any_flags else '') + '.compose', str(e))
         return
     ctx.function(m, fn, cls + '.' + mname, ex.dropped)
     # scan contracts: which column / lists each scan loop works on
     obs = []
     # map variable names -> stub names from the final env of one outcome
     if not outs:
-        ctx.outside(mode + '.compose', 'no outcome')
+        ctx.outside(mode + ('' if have_ghosts else '.first_update') +
+                    ('.anyflags' if any_flags else '') + '.compose',
+                    'no outcome')
         return
     env = outs[0].state.env
     var = {nm: v.name for nm, v in env.items() if isinstance(v, ListStub)}
@@ -945,16 +1019,21 @@ def _compose(ctx, repo, m, mode, have_ghosts):
             lst[a] = (cands['low'], cands.get('high'),
                       cands.get('low_translate'),
                       cands.get('high_translate'))
-        sub = scan_checks({k: (log, cols, lst)}, m, W, mode, A, L)
-        for o_ in sub:
-            o_.name = 'exec%d.%s' % (li, o_.name)
-        obs += sub
+        if not any_flags:
+            sub = scan_checks({k: (log, cols, lst)}, m, W, mode, A, L)
+            for o_ in sub:
+                o_.name = 'exec%d.%s' % (li, o_.name)
+            obs += sub
         # the scan covers EVERY particle of the column it reads (ghosts
         # appended by an earlier pass included)
         ent = log['entry']
         xc = ent.env.get('x')
-        xlen = xc.attrs['length'] if isinstance(xc, SymObject) else \
-            getattr(xc, 'length', None)
+        if isinstance(xc, SymObject):
+            xlen = xc.attrs['length']
+        elif isinstance(xc, ColStub):
+            xlen = xc.length_at(ent)
+        else:
+            xlen = getattr(xc, 'length', None)
         lp = [x_ for x_ in _all_loops(fn)][k]
         bound = None
         try:
@@ -967,6 +1046,16 @@ def _compose(ctx, repo, m, mode, have_ghosts):
         obs.append(Obligation('exec%d.scan.%d.covers_whole_column' % (li, k),
                               ent.pc, S.to_z3(S.cmp('==', bound, xlen))
                               if okb else z3.BoolVal(False), W))
+    if any_flags:
+        nscan = sum(1 for o_ in obs if 'covers_whole_column' in o_.name)
+        obs.append(Obligation('anyflags.scans_found', [],
+                              z3.BoolVal(nscan >= 6), W,
+                              extra=dict(scans=nscan)))
+        for o_ in obs:
+            o_.extra = dict(o_.extra or {}, backends=['z3'])
+        ctx.prove('%s.every_flag_combination.scans_cover_their_column' % mode,
+                  obs, replay=replay_built, use_nf=False)
+        return
     # composition trace per outcome
     for i_, o in enumerate(outs):
         ok, why = check_composition(o.state.trace, var, mode, narrays, ks)
